@@ -290,6 +290,7 @@ pub fn gen_layout_history(rng: &mut Rng) -> History {
     let max_adds = *rng.pick(&[2usize, 4, 8, 8]);
     let orphan_num = *rng.pick(&[0usize, 0, 1, 2]); // out of 10
     let zst_boost = rng.chance(1, 6);
+    let bulk = rng.chance(1, 25);
 
     let mut model = Model::default();
     let mut reqs = Vec::new();
@@ -306,7 +307,10 @@ pub fn gen_layout_history(rng: &mut Rng) -> History {
                 pending_ops.push(Req::Remove { k });
             }
         }
-        let nadds = if v == 0 && rng.chance(9, 10) {
+        let nadds = if bulk && rng.chance(1, 3) {
+            // a bulk step: dozens of data added at once
+            rng.range(33, 80)
+        } else if v == 0 && rng.chance(9, 10) {
             rng.range(1, max_adds)
         } else {
             rng.range(0, max_adds)
@@ -317,7 +321,7 @@ pub fn gen_layout_history(rng: &mut Rng) -> History {
                 shape = sh(0, 1 << rng.below(5));
             }
             if rng.below(10) < big_num {
-                let size = *rng.pick(&[255usize, 256, 257, 320, 1000, 1024, 4095, 4096, 4100]);
+                let size = *rng.pick(&[255usize, 256, 257, 320, 1000, 1024, 4095, 4096, 4100, 65535, 65536, 70000, 1 << 24, (1 << 32) + 8]);
                 shape = sh(size, 1 << rng.below(5));
             }
             pending_ops.push(Req::Add {
@@ -517,6 +521,34 @@ pub fn directed_histories() -> Vec<History> {
             }
         }
     }
+    // offsets beyond 64 KiB and beyond 4 GiB, with holes up there
+    for s in STRATS {
+        push(
+            "huge-offsets",
+            vec![add(0, 65536, 1), add(1, 8, 8), add(2, 4, 4), add(3, 2, 2), close(s), rm(1), add(4, 8, 8), add(5, 2, 2), close(s), add(6, (1 << 32) + 3, 1), add(7, 8, 8), add(8, 1, 1), close(s), rm(7), add(9, 4, 4), add(10, 4, 2), close(Simple)],
+        );
+    }
+    // many separate gaps at once (more than 16, 32), then several additions
+    for s in STRATS {
+        let mut reqs = Vec::new();
+        for i in 0..72 {
+            reqs.push(add(i, if i % 2 == 0 { 4 } else { 2 + (i % 3) * 3 }, if i % 2 == 0 { 4 } else { 1 }));
+        }
+        reqs.push(close(s));
+        for i in (1..72).step_by(2) {
+            reqs.push(rm(i));
+        }
+        for j in 0..6 {
+            reqs.push(add(100 + j, [4, 3, 8, 2, 5, 1][j], [4, 1, 8, 2, 1, 1][j]));
+        }
+        reqs.push(close(s));
+        reqs.push(rm(0));
+        reqs.push(rm(2));
+        reqs.push(add(200, 12, 4));
+        reqs.push(add(201, 6, 2));
+        reqs.push(close(Simple));
+        push("many-gaps", reqs);
+    }
     // the witnesses of the repaired defects (D1, D2, D3)
     push(
         "witness-D1",
@@ -556,6 +588,28 @@ pub fn directed_hostile_histories() -> Vec<History> {
         push("repeated-close", vec![close(s), close(s), add(0, 1, 1), close(s), close(s), close(s)]);
         // cancelled pending datum, then further adds: identifiers must not be reused
         push("cancel-then-add", vec![add(0, 4, 4), rm(0), add(1, 2, 2), rm(0), close(s), add(2, 8, 8), rm(2), add(3, 1, 1), rm(2), close(s)]);
+        // more than 64 (and more than 128) data in one variant: removals and name clashes at high positions
+        // (the wider one for one strategy only: every request is followed by a full observation)
+        let n = if s == Strat::Append { 140 } else { 70 };
+        let mut reqs = Vec::new();
+        for i in 0..n {
+            reqs.push(add(i, 1 + i % 7, 1 << (i % 4)));
+        }
+        reqs.push(close(s));
+        reqs.push(rm(66));
+        reqs.push(add(2, 4, 4)); // n2 is alive: must clash
+        reqs.push(rm(2));
+        reqs.push(add(2, 4, 4)); // now free
+        reqs.push(rm(n - 3));
+        reqs.push(rm(n - 3)); // twice
+        reqs.push(add(66, 2, 2)); // free again
+        reqs.push(add(67, 2, 2)); // alive: must clash
+        reqs.push(close(s));
+        reqs.push(rm(64));
+        reqs.push(rm(n - 1));
+        reqs.push(add(64, 8, 8));
+        reqs.push(close(s));
+        push("more-than-64-data", reqs);
         // unclosed at the end
         push("unclosed-add", vec![add(0, 4, 4), close(s), add(1, 2, 2)]);
         push("unclosed-remove", vec![add(0, 4, 4), close(s), rm(0)]);
